@@ -6,6 +6,9 @@ from harness import checklib, rec, tlcrun
 from harness.drivers import graph, history
 
 
+CONFORMANCE_PATHS = 24      # per worker
+
+
 def _make_history(profile, tid, s, nv, steps):
     if profile == 'reorder':
         return history.reorder_history(tid, s, nv, steps)
@@ -69,6 +72,7 @@ def graph_task(shard, dot, part, nparts, limit, seed, names, declared,
     fps = set()
     events = 0
     samples = []
+    ntr_conf = 0
     with open(shard, 'w') as f:
         for i, p in enumerate(mine):
             acts = [last[n] for n in p]
@@ -88,13 +92,56 @@ def graph_task(shard, dot, part, nparts, limit, seed, names, declared,
                     kind='replay of a path of the specification state graph',
                     model_actions=[repr(a) for a in acts]))
             rp.tr.release_all()
+        # ---- state conformance: the same paths WITHOUT witness calls, the real
+        # tables compared with the model state after every action (node numbers,
+        # counts, order, _min_free, size of the computed table)
+        conf = dict(steps=0, equal=0, fields={}, first=None)
+        for i, p in enumerate(mine[:CONFORMANCE_PATHS]):
+            rp = graph.Replayer(first_tid + 50000 + i, names, declared, seed=seed,
+                                meta=dict(driver='graph_conformance'), witness=False)
+            try:
+                prev = None
+                for n in p:
+                    rp.step(last[n])
+                    post = rp.tr.events[-1]['post']
+                    bad = graph.conformance(graph.model_state(dot, n), post)
+                    if bad and last[n][0] == 'sift' and prev is not None:
+                        # the model takes the visiting order of sifting as a parameter
+                        # (the code derives it from its own tables): the code must
+                        # agree with the model for SOME visiting order
+                        for c in edges.get(prev, ()):
+                            if last[c][0] == 'sift' and not graph.conformance(graph.model_state(dot, c), post):
+                                bad = None       # equal to a sibling: the rest of this path starts elsewhere
+                                break
+                    prev = n
+                    if bad is None:
+                        conf['steps'] += 1
+                        conf['equal'] += 1
+                        break
+                    conf['steps'] += 1
+                    if not bad:
+                        conf['equal'] += 1
+                    else:
+                        for b in bad:
+                            conf['fields'][b] = conf['fields'].get(b, 0) + 1
+                        if conf['first'] is None:
+                            conf['first'] = dict(actions=[repr(last[x]) for x in p[:p.index(n) + 1]],
+                                                 differs=bad)
+                        break      # later states of this path follow from the first difference
+            except Exception as e:
+                if rec.salvage(e) is None:
+                    raise
+            f.write(rp.tr.dumps() + '\n')
+            events += len(rp.tr.events)
+            ntr_conf += 1
+            rp.tr.release_all()
     kinds = {}
     if part == 0:
         for v in last.values():
             kinds[v[0]] = kinds.get(v[0], 0) + 1
-    return dict(shard=shard, traces=len(mine), events=events,
+    return dict(shard=shard, traces=len(mine) + ntr_conf, events=events,
                 fingerprints=fps, samples=samples,
-                model_states=nstates, paths=len(paths), kinds=kinds)
+                model_states=nstates, paths=len(paths), kinds=kinds, conformance=conf)
 
 
 # ---------------- stages ----------------
@@ -124,6 +171,17 @@ def stage_graph(chk, spec, cfg, names, declared, limit, need_actions=(),
             raise tlcrun.MachineryError(
                 f'{spec}/{cfg}: model action "{a}" never taken (vacuous)')
     chk.mc_runs[-1]['states_by_action'] = kinds
+    conf = dict(steps=0, equal=0, fields={}, first=None)
+    for r in res:
+        c = r.get('conformance') or {}
+        conf['steps'] += c.get('steps', 0)
+        conf['equal'] += c.get('equal', 0)
+        for k, v in (c.get('fields') or {}).items():
+            conf['fields'][k] = conf['fields'].get(k, 0) + v
+        if conf['first'] is None and c.get('first'):
+            conf['first'] = c['first']
+    chk.mc_runs[-1]['state_conformance'] = conf
+    chk.log(f'state conformance {cfg}: {conf["equal"]}/{conf["steps"]} steps equal; differing fields {conf["fields"]}')
     chk.extra['model_states_in_graph'] = chk.extra.get(
         'model_states_in_graph', 0) + res[0]['model_states']
     chk.extra['model_paths_replayed'] = chk.extra.get(
@@ -152,6 +210,24 @@ def stage_wide(chk, focus, tag='w'):
     return stage_histories(chk, ntraces=32 if q else 480, steps=18 if q else 30,
                            nvars_choices=[9, 9, 10, 11] if q else [9, 10, 11, 12],
                            profile='wide_' + focus, tag=tag + focus)
+
+
+def conformance_canary(chk, spec='MC_Core2', cfg='MC_Core2_deviant.cfg', names=('a', 'b'), declared=2):
+    """The state-conformance comparison must be able to fail: replay the paths
+    of a DEVIANT model (find_or_add forgets one incref; no invariants, so that
+    TLC explores it) into the real code; the tables must differ somewhere."""
+    dot = os.path.join(chk.dir, 'deviant_%s.dot' % cfg)
+    r = tlcrun.model_check(spec, cfg, f'{chk.pid}_dev', extra=['-dump', 'dot', dot], timeout=900)
+    if not r['ok'] or not os.path.exists(dot):
+        raise tlcrun.MachineryError('deviant model %s did not run: %s' % (cfg, r['out'][-800:]))
+    res = graph_task(chk.shard('deviant'), dot, 0, 4, 400, chk.seed, list(names), declared, 9000000)
+    os.remove(dot)
+    os.remove(chk.shard('deviant'))
+    c = res['conformance']
+    if c['steps'] == 0 or c['equal'] == c['steps']:
+        raise tlcrun.MachineryError('conformance canary: the deviant model was not told apart from the code')
+    chk.extra['conformance_canary'] = dict(model=cfg, steps=c['steps'], equal=c['equal'],
+                                           differing_fields=c['fields'])
 
 
 # ---------------- canaries ----------------
